@@ -18,7 +18,8 @@ RULE = ("a case is (scheme, valid base configuration with 1..3 edits, database v
         "primitive names <- other spellings, names of the wrong kind, unknown names, '', None; plus the exhaustive sweep of every "
         "single-key deletion for every scheme. The database takes identifier size, keyword limit and capacities from the edited "
         "configuration; when these are not positive integers no valid database exists and the case is counted as vacuous. "
-        "Oracle: an exception in SSEConfig/SSEScheme/KeyGen/EDBSetup/TokenGen/Search, or every search (all keywords + 2 absent) "
+        "Oracle: an exception in SSEConfig/SSEScheme/KeyGen/EDBSetup/TokenGen/Search, or every search (all keywords + 2 absent, each token used twice, "
+        "and for one case in six the serialized index and tokens searched by ANOTHER PROCESS) "
         "equals DB.get(w, empty); for deletions: refused while the configuration is built, or the whole workflow is correct. "
         "Non-trivial = configuration differs from the base and a valid database exists; distinct = distinct (scheme, edits, profile).")
 ASSUMPTIONS = ["label/key lengths are >= 8 bytes or outright invalid (the property's own domain restriction)",
@@ -172,12 +173,22 @@ def run_case(case, res=None):
                 stage = "EDBSetup"
                 edb = sch.EDBSetup(key, db)
                 results = []
+                tokens = []
                 absent = [b"zz", b"kx"]
                 for w in list(db.keys()) + [a for a in absent if a not in db]:
                     stage = "TokenGen"
                     tk = sch.TokenGen(key, w)
+                    tokens.append((w, tk))
                     stage = "Search"
                     results.append((w, sch.Search(edb, tk).get_result_list()))
+                # "every search on the resulting index": the same tokens once more, in reverse order
+                stage = "Search(again)"
+                for w, tk in reversed(tokens):
+                    results.append((w, sch.Search(edb, tk).get_result_list()))
+                wire = None
+                if case.get("process_boundary"):
+                    stage = "serialize"
+                    wire = (edb.serialize().hex(), [tk.serialize().hex() for _, tk in tokens])
             except _Timeout:
                 raise
             except Exception as e:
@@ -192,6 +203,23 @@ def run_case(case, res=None):
         signal.alarm(0)
         signal.signal(signal.SIGALRM, old)
     desc = S.DESCS[scheme]
+    if wire is not None:
+        # the stored index searched by another interpreter (own hash seed, own module state), as a server would
+        from vlib import fresh
+        try:
+            json_cfg = __import__("json").loads(__import__("json").dumps(cfg))
+        except (TypeError, ValueError):
+            json_cfg = None
+        if json_cfg is not None:
+            out = fresh.run_job({"kind": "server_search", "scheme": scheme, "cfg": json_cfg, "edb_hex": wire[0], "tokens": wire[1]},
+                                hashseed=1 + case["seed"] % 4000)
+            if "error" in out:
+                from vlib.runner import HarnessError
+                raise HarnessError("server child failed: %s" % out["error"])
+            if "results" in out:   # an exception in the other process is a (late) refusal, which the property allows
+                for (w, _), got_hex in zip(tokens, out["results"]):
+                    got = [bytes.fromhex(h) for h in got_hex]
+                    results.append((w, set(got) if desc.result_is_set else got))
     for w, got in results:
         if not S.result_matches(desc, got, db, w):
             edits = case.get("edits") or [["delete", deletion]]
@@ -286,6 +314,7 @@ def deletion_cases(scheme, seed):
 
 
 def body(case, res):
+    case.setdefault("process_boundary", case["seed"] % 6 == 0)
     outcome = "violation"
     try:
         outcome = run_case(case, res)
@@ -294,6 +323,8 @@ def body(case, res):
         cl = ["scheme:" + case["scheme"], "outcome:" + o[0], case["scheme"] + ":" + o[0]]
         if o[0] == "refused_later":
             cl.append("refused_later_stage:" + o[1])
+        if o[0] == "accepted_correct" and case.get("process_boundary"):
+            cl.append("index_also_searched_in_another_process")
         nt = not outcome.startswith("vacuous") and not outcome.startswith("timeout")
         res.count([case["scheme"], repr(case.get("edits")), case.get("deleted"), case["shape"]["lens"]], nt, cl,
                   sample={"scheme": case["scheme"], "edits": case.get("edits"), "deleted": case.get("deleted"),
